@@ -9,10 +9,23 @@ into a Guppy type twice (direct constructors / `check_instantiate`, and the user
 `.hugr_bound` and `.to_hugr(ctx).type_bound()` are compared with a structural recursion written
 from the property statement.
 
+Part 1b (sequences): "exactly when all of its fields, elements and type arguments are" makes the
+classification a function of the type's constituents.  One drawn type shape is instantiated 2-3
+times so that the instantiations *print alike* but differ in copy/drop kind: type variables named
+`T`/`U`/`V` whose bounds are drawn per item (the type parameters of different generic functions
+`def f[T: Copy](..)`, `def g[T](..)`), and non-generic struct arguments swapped for a second struct
+definition of the same class name (defined in another scope) that holds an int.  The items are
+classified one after the other, in drawn order, against one freshly loaded module; each must agree
+with the same structural recursion.  A mismatch that disappears when the item is classified alone
+is filed as `order_dependent.<bucket>` with the shortest reproducing (earlier, later) pair.
+
 Part 2 (programs): for affine types from the same generator a function receives (@owned) or
 creates (declared `make()`, or a literal expression) a value and never uses it: it must compile,
 validate and contain a `tket.guppy.drop` op fed by that value; copyable values and values that are
-returned / passed to an @owned parameter / only borrowed must not be fed into a drop op.
+returned / passed to an @owned parameter / only borrowed must not be fed into a drop op.  Created
+values live in the function body itself or (drawn) in an inner body: a `with control(q)` /
+`with dagger` / `with power(2)` block, or a nested function that is plain, capturing, recursive or
+both (experimental features are switched on for that).
 """
 import ast
 import os
@@ -134,23 +147,34 @@ def subst(t, m, S=None):
     return ["fn", ins, subst(t[2], m, S)]
 
 
-def ann(t):
-    """annotation source of a type tree"""
+SHORT = "TUV"
+
+
+def var_display(v, disp=False):
+    """display name of a type variable: its token (`TL0`, bound encoded) or, with `disp`, the short
+    name `T`/`U`/`V` picked by the token's index only - variables of different bounds then print alike"""
+    return SHORT[int(v[2:])] if disp else v
+
+
+def ann(t, disp=False):
+    """annotation source of a type tree (`disp`: type variables under their short display names)"""
     k = t[0]
-    if k in ("b", "v"):
+    if k == "b":
         return t[1]
+    if k == "v":
+        return var_display(t[1], disp)
     if k == "tuple":
-        return "tuple[()]" if not t[1] else "tuple[" + ", ".join(ann(x) for x in t[1]) + "]"
+        return "tuple[()]" if not t[1] else "tuple[" + ", ".join(ann(x, disp) for x in t[1]) + "]"
     if k == "array":
-        return f"array[{ann(t[1])}, {t[2]}]"
+        return f"array[{ann(t[1], disp)}, {t[2]}]"
     if k == "farr":
-        return f"frozenarray[{ann(t[1])}, {t[2]}]"
+        return f"frozenarray[{ann(t[1], disp)}, {t[2]}]"
     if k == "opt":
-        return f"Option[{ann(t[1])}]"
+        return f"Option[{ann(t[1], disp)}]"
     if k == "st":
-        return t[1] + ("[" + ", ".join(ann(x) for x in t[2]) + "]" if t[2] else "")
-    ins = ", ".join(ann(x) + (" @owned" if o else "") for x, o in t[1])
-    return f"Callable[[{ins}], {ann(t[2])}]"
+        return t[1] + ("[" + ", ".join(ann(x, disp) for x in t[2]) + "]" if t[2] else "")
+    ins = ", ".join(ann(x, disp) + (" @owned" if o else "") for x, o in t[1])
+    return f"Callable[[{ins}], {ann(t[2], disp)}]"
 
 
 def node_kind(t, S):
@@ -191,6 +215,12 @@ PY312_BOUND = {"L": "", "A": ": Drop", "C": ": Copy", "B": ": (Copy, Drop)"}
 
 
 def render_struct(s):
+    if s.get("cls") and s["cls"] != s["name"]:
+        # a struct whose class name (= the name its type prints as) differs from the name it is bound
+        # to: defined in a local scope, as two same-named definitions of one module have to be
+        inner = render_struct(dict(s, name=s["cls"], cls=None))
+        return (f"def _mk_{s['name']}():\n" + "".join("    " + ln + "\n" for ln in inner.rstrip("\n").split("\n"))
+                + f"    return {s['cls']}\n\n{s['name']} = _mk_{s['name']}()\n\n")
     if s["py312"]:
         head = s["name"] + ("[" + ", ".join(p + PY312_BOUND[p[1]] for p in s["params"]) + "]"
                             if s["params"] else "")
@@ -250,12 +280,15 @@ class Mod:
         self.globals = Globals(DEF_STORE.frames[self.frame_id])
         self.key = harness.case_hash(structs)
 
+    def dispose(self):
+        self.lm.dispose()
+
 
 # =========================================================================== building types
 _LOC = ast.parse("T", mode="eval").body  # dummy location for diagnostics of check_instantiate
 
 
-def build_direct(t, M, idx):
+def build_direct(t, M, idx, disp=False):
     """Guppy type from internal constructors / `check_instantiate`."""
     from guppylang_internals.tys import builtin as B
     from guppylang_internals.tys import ty as T
@@ -271,32 +304,42 @@ def build_direct(t, M, idx):
                 "str": B.string_type, "None": T.NoneType}[n]()
     if k == "v":
         c, d = bound_of(t[1])
-        return T.BoundTypeVar(t[1], idx.setdefault(t[1], len(idx)), c, d)
+        return T.BoundTypeVar(var_display(t[1], disp), idx.setdefault(t[1], len(idx)), c, d)
     if k == "tuple":
-        return T.TupleType([build_direct(x, M, idx) for x in t[1]])
+        return T.TupleType([build_direct(x, M, idx, disp) for x in t[1]])
     if k in ("array", "farr"):
         defn = B.array_type_def if k == "array" else B.frozenarray_type_def
         return defn.check_instantiate(
-            [TypeArg(build_direct(t[1], M, idx)), ConstArg(ConstValue(B.nat_type(), t[2]))], _LOC)
+            [TypeArg(build_direct(t[1], M, idx, disp)), ConstArg(ConstValue(B.nat_type(), t[2]))], _LOC)
     if k == "opt":
-        return B.option_type_def.check_instantiate([TypeArg(build_direct(t[1], M, idx))], _LOC)
+        return B.option_type_def.check_instantiate([TypeArg(build_direct(t[1], M, idx, disp))], _LOC)
     if k == "st":
-        return M.checked[t[1]].check_instantiate([TypeArg(build_direct(x, M, idx)) for x in t[2]], _LOC)
+        return M.checked[t[1]].check_instantiate([TypeArg(build_direct(x, M, idx, disp)) for x in t[2]], _LOC)
     ins = []
     for x, o in t[1]:
-        ty = build_direct(x, M, idx)
+        ty = build_direct(x, M, idx, disp)
         flags = T.InputFlags.Owned if o else (
             T.InputFlags.NoFlags if oracle(x, M.S)[0] else T.InputFlags.Inout)
         ins.append(T.FuncInput(ty, flags))
-    return T.FunctionType(ins, build_direct(t[2], M, idx))
+    return T.FunctionType(ins, build_direct(t[2], M, idx, disp))
 
 
-def build_parsed(t, M):
-    """Guppy type through the user path: annotation text -> type_from_ast."""
+def build_parsed(t, M, disp=False):
+    """Guppy type through the user path: annotation text -> type_from_ast.  With `disp` the type
+    variables are the type parameters of an enclosing generic function (`def f[T: Copy, U](..)`): short
+    names resolved through the parameter mapping of the parsing context instead of module-level
+    `guppy.type_var`s."""
+    from guppylang_internals.tys.param import TypeParam
     from guppylang_internals.tys.parsing import TypeParsingCtx, type_from_ast
 
-    node = ast.parse(ann(t), mode="eval").body
-    return type_from_ast(node, TypeParsingCtx(M.globals, {}, allow_free_vars=True))
+    node = ast.parse(ann(t, disp), mode="eval").body
+    params = {}
+    if disp:
+        for n in walk_trees(t):
+            if n[0] == "v" and var_display(n[1], True) not in params:
+                nm = var_display(n[1], True)
+                params[nm] = TypeParam(len(params), nm, *bound_of(n[1]))
+    return type_from_ast(node, TypeParsingCtx(M.globals, params, allow_free_vars=not disp))
 
 
 def sub_types(ty):
@@ -378,12 +421,13 @@ def check_node(t, ty, S, path):
     return None
 
 
-def eval_type(M, tree):
+def eval_type(M, tree, disp=False):
     """-> (violations [(bucket, culprit_tree, detail)], n_phantom_nodes)"""
     from guppylang_internals.error import GuppyError
 
     out, nph = [], 0
-    for path, build in (("direct", lambda: build_direct(tree, M, {})), ("parsed", lambda: build_parsed(tree, M))):
+    for path, build in (("direct", lambda: build_direct(tree, M, {}, disp)),
+                        ("parsed", lambda: build_parsed(tree, M, disp))):
         try:
             ty = build()
         except GuppyError as e:
@@ -407,6 +451,104 @@ def eval_type(M, tree):
             out.append((r[0], t, r[1]))
             break  # deepest mismatching node = root-cause localisation
     return out, nph
+
+
+# =========================================================================== sequences
+UPGRADES = {"L": "LACB", "A": "AB", "C": "CB", "B": "B"}  # bounds at least as permissive
+
+
+def twin_of(s):
+    """a second struct definition that prints like the non-generic struct `s` (same class name, defined
+    in a scope of its own) but holds an int only: copyable and droppable"""
+    return {"name": s["name"] + "t", "cls": s["name"], "py312": s["py312"], "params": [],
+            "fields": [["v", ["b", "int"]]], "best": [True, True]}
+
+
+def retarget(t, vmap, smap, S):
+    """same shape and same printed form (under display names), other constituents: type variables
+    renamed by `vmap` (to variables of a more permissive bound), non-generic structs by `smap` (to their
+    twins); `@owned` flags of inputs that became copyable are removed"""
+    k = t[0]
+    if k == "b":
+        return t
+    if k == "v":
+        return ["v", vmap.get(t[1], t[1])]
+    if k == "tuple":
+        return ["tuple", [retarget(x, vmap, smap, S) for x in t[1]]]
+    if k in ("array", "farr"):
+        return [k, retarget(t[1], vmap, smap, S), t[2]]
+    if k == "opt":
+        return ["opt", retarget(t[1], vmap, smap, S)]
+    if k == "st":
+        if not t[2] and t[1] in smap:
+            return ["st", smap[t[1]], []]
+        return ["st", t[1], [retarget(x, vmap, smap, S) for x in t[2]]]
+    ins = [[retarget(x, vmap, smap, S), o] for x, o in t[1]]
+    ins = [[x, o and not oracle(x, S)[0]] for x, o in ins]
+    return ["fn", ins, retarget(t[2], vmap, smap, S)]
+
+
+def expand_seq(structs, base, maps):
+    """-> (struct list incl. the twins used, [type tree per item])"""
+    names = sorted({sm for _, smap in maps for sm in smap})
+    S0 = {s["name"]: s for s in structs}
+    structs = list(structs) + [twin_of(S0[n]) for n in names]
+    S = {s["name"]: s for s in structs}
+    return structs, [retarget(base, vmap, {n: n + "t" for n in smap}, S) for vmap, smap in maps]
+
+
+def M_print(t, structs):
+    """printed form of a tree: variables under display names, structs under their class names"""
+    cls = {s["name"]: s.get("cls") or s["name"] for s in structs}
+    out = ann(t, True)
+    for n in sorted(cls, key=len, reverse=True):
+        if cls[n] != n:
+            out = out.replace(n, cls[n])
+    return out
+
+
+def eval_seq(structs, items):
+    """the items (type trees, variables under their short display names) are classified one after the
+    other against ONE freshly loaded module -> None | (index, bucket, culprit tree, detail) of the
+    first item that disagrees with the statement's recursion"""
+    M = Mod(structs)
+    try:
+        for i, t in enumerate(items):
+            viol, _ = eval_type(M, t, disp=True)
+            if viol:
+                return (i,) + tuple(viol[0])
+    finally:
+        M.dispose()
+    return None
+
+
+def judge_seq(structs, items):
+    """-> None | (bucket, minimal case dict, detail).  A mismatch that disappears when the item is
+    classified alone (fresh module) is filed as `order_dependent.<bucket>`: the statement makes the
+    classification a function of the type's constituents, not of what was classified before."""
+    r = eval_seq(structs, items)
+    if r is None:
+        return None
+    i, b, culprit, detail = r
+    if i == 0 or eval_seq(structs, [items[i]]) is not None:
+        best, bucket = [culprit], b
+    else:
+        bucket = "order_dependent." + b
+        pos = [k for k, n in enumerate(walk_trees(items[i])) if n is culprit][0]
+        best = items[: i + 1]
+        for j in range(i):  # smallest reproducing pair: the corresponding subtrees, else the two items
+            found = False
+            for cand in ([list(walk_trees(items[j]))[pos], culprit], [items[j], items[i]]):
+                rr = eval_seq(prune(structs, cand), cand)
+                if rr is not None and rr[0] == 1 and rr[1] == b:
+                    best, found = cand, True
+                    break
+            if found:
+                break
+        detail = (f"after classifying {[ann(x) for x in best[:-1]]} in the same module (both print as "
+                  f"`{M_print(best[-1], structs)}`; alone the type is classified correctly): " + detail)
+    case = {"kind": "seq", "bucket": bucket, "structs": prune(structs, best), "items": best}
+    return bucket, case, detail
 
 
 # =========================================================================== strategies
@@ -506,6 +648,45 @@ def make_strategies():
             return mi, gen(draw, M.structs, M.S, vars_, d, need, top=True)
         return strat()
 
+    def seq_case(mods):
+        """one type shape, 2-3 instantiations of it that print alike (type variables `T`/`U`/`V` of
+        per-item bounds, same-named struct definitions) in drawn order"""
+        @st.composite
+        def strat(draw):
+            mi = draw(st.integers(0, len(mods) - 1))
+            M = mods[mi]
+            vars_ = [f"T{draw(st.sampled_from('LLLACB'))}{j}" for j in range(draw(st.sampled_from([1, 1, 2, 3])))]
+            plain = [x for x in M.structs if not x["params"] and x["best"] != [True, True]]
+            generic = [x for x in M.structs if x["params"]]
+            if generic and draw(st.integers(0, 2)):
+                s = draw(st.sampled_from(generic))
+                args = []
+                for p in s["params"]:
+                    cands = [["v", v] for v in vars_ if geq(bound_of(v), bound_of(p))]
+                    cands += [["st", x["name"], []] for x in plain if geq(x["best"], bound_of(p))]
+                    if cands and draw(st.integers(0, 5)):
+                        args.append(draw(st.sampled_from(cands)))
+                    else:
+                        args.append(gen(draw, M.structs, M.S, vars_, 1, bound_of(p)))
+                base = ["st", s["name"], args]
+                base = draw(st.sampled_from([base, base, ["tuple", [base, ["b", "int"]]], ["opt", base],
+                                             ["array", base, 2], ["fn", [[base, False]], base]]))
+            else:
+                base = gen(draw, M.structs, M.S, vars_, draw(st.sampled_from([1, 2, 2, 3])), (False, False), top=True)
+            used_v = sorted({n[1] for n in walk_trees(base) if n[0] == "v"})
+            names = {x["name"] for x in plain}
+            used_s = sorted({n[1] for n in walk_trees(base) if n[0] == "st" and n[1] in names})
+            # per variable a drawn order of the admissible bounds, per struct a drawn phase of original /
+            # twin: consecutive items differ wherever they can (independent draws mostly coincide)
+            order = {v: draw(st.permutations(UPGRADES[v[1]])) for v in used_v}
+            phase = {n: draw(st.integers(0, 1)) for n in used_s}
+            maps = []
+            for i in range(draw(st.sampled_from([2, 2, 3]))):
+                vmap = {v: "T" + order[v][i % len(order[v])] + v[2:] for v in used_v}
+                maps.append([vmap, [n for n in used_s if (i + phase[n]) % 2]])
+            return mi, base, maps
+        return strat()
+
     MODES_AFFINE = ["recv_unused"] * 4 + ["make_unused", "make_unused", "make_stmt", "expr_unused", "expr_stmt",
                                           "recv_returned", "recv_sunk", "recv_borrowed", "recv_borrowed",
                                           "make_returned", "make_sunk"]
@@ -554,14 +735,34 @@ def make_strategies():
                     t = draw(st.sampled_from([["opt", inner], ["tuple", [inner, ["b", "int"]]], inner,
                                               ["opt", ["opt", inner]], ["tuple", [["b", "int"], ["opt", inner]]]]))
                     mode = draw(st.sampled_from(["recv_unused", "recv_unused", "make_stmt", "make_unused", "recv_sunk"]))
-                slots.append({"ty": t, "mode": mode})
+                # where the value lives: the function body itself, the body of a `with` modifier block or
+                # a nested function (plain / capturing / recursive / both)
+                where = "top"
+                if mode in IN_CTX_MODES:
+                    where = draw(st.sampled_from(["top"] * 3 + CONTEXTS))
+                slots.append({"ty": t, "mode": mode, "where": where})
             return mi, slots
         return strat()
 
-    return struct_set, type_case, prog_case
+    return struct_set, type_case, prog_case, seq_case
 
 
 # =========================================================================== programs
+#: modes whose value is created (not received) and not returned: they can be placed in an inner body
+IN_CTX_MODES = ("make_unused", "make_stmt", "expr_unused", "expr_stmt", "make_sunk")
+CONTEXTS = ["control", "dagger", "power", "local", "closure", "rec_local", "rec_closure"]
+_ready = [False]
+
+
+def setup():
+    """`with` modifier blocks and capturing nested functions are gated as experimental features"""
+    if not _ready[0]:
+        from guppylang_internals.experimental import enable_experimental_features
+
+        enable_experimental_features()
+        _ready[0] = True
+
+
 def has_var(t):
     return any(n[0] == "v" for n in walk_trees(t))
 
@@ -634,7 +835,10 @@ def normalise_slots(slots, S):
             t = subst(t, {v: ["b", "int"] for v in LEGACY_VARS}, S)
         if was_affine and oracle(t, S)[0]:
             t = ["array", t if depth(t) < MAX_DEPTH else ["b", "int"], 1]
-        out.append({"ty": t, "mode": mode})
+        where = s.get("where", "top") if mode in IN_CTX_MODES else "top"
+        if where == "dagger" and mode.endswith("_unused"):  # no assignments under dagger
+            mode = mode[: -len("unused")] + "stmt"
+        out.append({"ty": t, "mode": mode, "where": where})
     return out
 
 
@@ -642,8 +846,11 @@ def render_prog(structs, slots):
     """-> (source, expectations) ; expectations: list of dicts per slot with root + want"""
     S = {s["name"]: s for s in structs}
     decls, params, body, rets, exp = [], [], [], [], []
+    need_q = need_n = False
     for i, s in enumerate(slots):
         t, mode = s["ty"], s["mode"]
+        where = s.get("where", "top")
+        stmts = []
         a = ann(t)
         oc, od = oracle(t, S)
         affine = (not oc) and od
@@ -667,26 +874,45 @@ def render_prog(structs, slots):
         if src == "cond":
             decls.append(f"@guppy.declare\ndef sink{i}(x: {a} @owned) -> None: ...\n")
             params.append("flag: bool")
-            body.append(f"    if flag:\n        sink{i}({val})")
+            stmts += ["if flag:", f"    sink{i}({val})"]
         elif act == "unused":
             if src != "recv":
-                body.append(f"    v{i} = {val}")
+                stmts.append(f"v{i} = {val}")
         elif act == "stmt":
-            body.append(f"    {val}")
+            stmts.append(f"{val}")
         elif act == "returned":
             if src == "make":
-                body.append(f"    v{i} = {val}")
+                stmts.append(f"v{i} = {val}")
                 val = f"v{i}"
             rets.append((val, a))
         elif act == "sunk":
             decls.append(f"@guppy.declare\ndef sink{i}(x: {a} @owned) -> None: ...\n")
-            body.append(f"    sink{i}({val})")
+            stmts.append(f"sink{i}({val})")
+        if where != "top" and (not stmts or src in ("recv", "cond") or act == "returned"):
+            raise harness.HarnessError(f"slot {s} cannot be placed in an inner body")
+        if where in ("control", "dagger", "power"):
+            need_q = need_q or where == "control"
+            head = {"control": "with control(cq):", "dagger": "with dagger:", "power": "with power(2):"}[where]
+            stmts = [head] + ["    " + ln for ln in stmts]
+        elif where != "top":
+            # nested function: `closure` captures the parameter nn of f, `rec_*` calls itself
+            need_n = True
+            ret = "nn" if "closure" in where else "k + 1"
+            tail = [f"return {ret}"] if not where.startswith("rec") else [
+                "if k <= 0:", f"    return {ret}", f"return go{i}(k - 1)"]
+            stmts = [f"def go{i}(k: int) -> int:"] + ["    " + ln for ln in stmts + tail] + [f"go{i}(nn)"]
+        body += ["    " + ln for ln in stmts]
         want = "some" if affine and (act in ("unused", "stmt") or src == "cond") else "none"
         phantom = want == "some" and oracle(t, S, None, False)[0]  # HUGR type is a copyable tuple
         if phantom and "phantom_type_arg" in EXCLUDE:
             want = "excluded"
-        exp.append({"slot": i, "root": root, "want": want, "ann": a, "mode": mode,
-                    "tag": "phantom_type_arg" if phantom else mode})
+        tag = mode + ("" if where == "top" else ".in_" + where)
+        exp.append({"slot": i, "root": root, "want": want, "ann": a, "mode": mode, "where": where,
+                    "tag": "phantom_type_arg" if phantom else tag})
+    if need_q:
+        params.append("cq: qubit")
+    if need_n:
+        params.append("nn: int")
     if rets:
         body.append("    return " + ", ".join(v for v, _ in rets))
         rty = rets[0][1] if len(rets) == 1 else "tuple[" + ", ".join(a for _, a in rets) + "]"
@@ -726,6 +952,8 @@ def drop_roots(h):
             par = h[node].parent
             pop = h[par].op
             if isinstance(pop, ops.FuncDefn):
+                if pop.f_name.startswith(("go", "__WithBlock__")):  # an inner body, not f itself
+                    return [["inner-param", pop.f_name, p.offset]]
                 return [["param", p.offset]]
             if isinstance(pop, ops.DataflowBlock) and h.children(h[par].parent)[0] == par:
                 return trace(src_of(h[par].parent, p.offset), fuel - 1)
@@ -756,6 +984,7 @@ def eval_prog(structs, slots):
     """-> list of (bucket, detail)"""
     from vlib import runner
 
+    setup()
     src, exp = render_prog(structs, slots)
     try:
         lm = runner.load_module(src)
@@ -785,7 +1014,7 @@ def eval_prog(structs, slots):
                             f"unused affine value `{e['ann']}` ({e['mode']}) is not fed into a tket.guppy.drop op; "
                             f"drops found: {roots}\n{src}"))
             if e["want"] == "none" and mine:
-                res.append((f"drop.unexpected.{e['mode']}",
+                res.append((f"drop.unexpected.{e['mode']}" + ("" if e["where"] == "top" else ".in_" + e["where"]),
                             f"value `{e['ann']}` ({e['mode']}) is fed into {len(mine)} tket.guppy.drop op(s) "
                             f"although it is copyable / consumed / borrowed\n{src}"))
         stray = [r for j, r in enumerate(roots) if not used[j]]
@@ -813,6 +1042,9 @@ def replay(case):
             if want is None or b == want:
                 return (b, d)
         return (out[0][0], out[0][2]) if out else None
+    if case["kind"] == "seq":
+        r = judge_seq(structs, case["items"])
+        return None if r is None else (r[0], r[2])
     res, _, _ = eval_prog(structs, case["slots"])
     return res[0] if res else None
 
@@ -820,7 +1052,7 @@ def replay(case):
 def worker(ctx):
     from guppylang_internals.error import GuppyError
 
-    struct_set, type_case, prog_case = make_strategies()
+    struct_set, type_case, prog_case, seq_case = make_strategies()
     p = ctx.params
 
     # ---- stage 0: struct sets (drawn through Hypothesis, loaded once per worker)
@@ -878,6 +1110,40 @@ def worker(ctx):
                        extra_seed=2)
 
     ctx.notes["t_types_s"] = round(ctx.elapsed(), 2)
+
+    # ---- stage 1b: the classification of a type does not depend on what was classified before
+    def body_q(c):
+        mi, base, maps = c
+        M = mods[mi]
+        structs, items = expand_seq(M.structs, base, maps)
+        structs = prune(structs, items)
+        S = {s["name"]: s for s in structs}
+        # generic-struct nodes whose classification differs between two items (they print alike)
+        cls = [[oracle(n, S) for n in walk_trees(t) if n[0] == "st" and n[2]] for t in items]
+        differ = any(a != b for a in cls for b in cls)
+        later_permissive = any(any(y[0] > x[0] or y[1] > x[1] for x, y in zip(cls[i], cls[j]))
+                               for i in range(len(cls)) for j in range(i + 1, len(cls)))
+        labels = ["Q", f"items:{len(items)}"] + (["Q:differ"] if differ else []) + (
+            ["Q:later_more_permissive"] if later_permissive else [])
+        if any(n[0] == "st" and n[1].endswith("t") for t in items for n in walk_trees(t)):
+            labels.append("Q:same_named_structs")
+        if any(n[0] == "v" for n in walk_trees(base)):
+            labels.append("Q:same_named_vars")
+        ctx.case(["q", structs, items], differ, labels=labels)
+        if later_permissive and sum(1 for k in ctx.samples if str(k).startswith("Q")) < 3:
+            ctx.sample("Q:" + ann(items[0], True), {"printed": ann(items[0], True), "items": [ann(t) for t in items],
+                                                    "oracle": [cls_name(oracle(t, S)) for t in items]})
+        try:
+            r = judge_seq(structs, items)
+        except GuppyError as e:
+            ctx.harness_error("sequence module rejected: " + _classify_guppy_error(e)[1] + "\n" + render_module(structs))
+            return
+        if r is not None:
+            ctx.violation(r[0], r[1], r[2])
+
+    harness.hyp_search(ctx, seq_case(mods), body_q, max_examples=p["n_seqs"], chunk=100, time_frac=0.72,
+                       extra_seed=4)
+    ctx.notes["t_seqs_s"] = round(ctx.elapsed(), 2)
     # ---- stage 2: program level
     def body_p(c):
         mi, slots = c
@@ -887,6 +1153,7 @@ def worker(ctx):
         res, src, exp = eval_prog(structs, slots)
         wants = [e["want"] for e in exp]
         labels = ["P"] + sorted({"mode:" + e["mode"] for e in exp}) + sorted({"want:" + w for w in wants})
+        labels += sorted({"in:" + e["where"] + ("/dropped" if e["want"] == "some" else "") for e in exp})
         labels.append(f"slots:{len(slots)}")
         for w in wants:
             if w == "excluded":
@@ -915,8 +1182,13 @@ SPEC = harness.Spec(
           "(.copyable, .droppable, .hugr_bound, to_hugr(ctx).type_bound() under a CompilerContext and a "
           "QuantifiedToHugrContext). program cases = 1-3 values of affine (or copyable) generated types, each "
           "received @owned / created by a declared make() / a literal expression and left unused, returned, passed to "
-          "an @owned sink, only borrowed, or sunk on one branch; compile_function + hugr validate + provenance of every "
-          "tket.guppy.drop operand. non-trivial type = nesting >= 2 with a non-copyable leaf (qubit, array, non-copyable "
+          "an @owned sink, only borrowed, or sunk on one branch; a created value sits in the body of f or (7 in 10) in "
+          "a with control/dagger/power block or a plain/capturing/recursive/capturing+recursive nested function; "
+          "compile_function + hugr validate + provenance of every tket.guppy.drop operand. sequence cases = one type "
+          "shape (2 in 3: a generic struct applied to type variables / non-generic structs, else a general tree) "
+          "instantiated 2-3 times with per-item variable bounds under the shared display names T/U/V and per-item "
+          "swaps of non-generic structs for same-named all-int twins, classified in drawn order in one fresh module; "
+          "non-trivial sequence = some generic-struct node is classified differently in two items. non-trivial type = nesting >= 2 with a non-copyable leaf (qubit, array, non-copyable "
           "variable) under a generic constructor; non-trivial program = contains an unused affine value. distinct = "
           "distinct (struct set, tree) / (structs, slots)"),
     assumptions=[
@@ -926,13 +1198,17 @@ SPEC = harness.Spec(
         "EXCLUDE phantom_type_arg: for a struct whose non-copyability stems only from a type argument occurring in no "
         "field outside a function type, a Copyable HUGR type is accepted and no drop op is demanded (statement "
         "sentences 1 and 2 cannot both hold for the field-tuple lowering)",
+        "sequence items use type variables that print alike although their bounds differ (as type parameters of "
+        "different generic functions do) and two struct definitions with one class name in different scopes; the "
+        "statement's recursion applies to each item on its own, whatever was classified before",
+        "inside `with dagger` no assignment is allowed, so unused values there are expression statements",
         "'fed by that value' = the drop operand traces back through UnpackTuple / entry-block inputs to the function "
         "parameter, the make() call or the constructing op",
     ],
     shards={"quick": 16, "thorough": 16},
     budget_s={"quick": 150, "thorough": 900},
-    params={"quick": {"sets": 3, "n_types": 3000, "n_progs": 30},
-            "thorough": {"sets": 10, "n_types": 60000, "n_progs": 500}},
+    params={"quick": {"sets": 3, "n_types": 3000, "n_seqs": 250, "n_progs": 32},
+            "thorough": {"sets": 10, "n_types": 60000, "n_seqs": 3000, "n_progs": 500}},
     min_nontrivial=1500,
 )
 
